@@ -1,7 +1,8 @@
 (* C20 runner: one case per line, TAB-separated fields
      id  flags  text  oracle  root  ast
-   root = `slo shi flo fhi` (entity ids in [slo,shi] are signals, in [flo,fhi] one-argument boolean
-   functions); ast = `kwa kwb <sens> <stmts>` in the prefix token format written by harness/src/bin/c20.rs:
+   root = `slo shi` (entity ids in [slo,shi] are signals) followed by entries `o id n f1..fn rb` (overloaded
+   subprogram with formals f1..fn, rb = 1 iff it returns BOOLEAN) and `p id m s` (parameter object: mode m = i|o|b,
+   s = 1 iff class signal); ast = `kwa kwb <sens> <stmts>` in the prefix token format written by harness/src/bin/c20.rs:
      expr  := L a b | D a b id | U a b | S a b <expr> <sd> | I a b <expr> n <expr>* | A a b <expr> k m <expr>?
             | C a b <expr> n <expr>* | N a b <expr> | B a b <expr> <expr> | G a b n <expr>* | Q a b <expr> | P a b <expr>
      sd    := d id | u                    (suffix designator with / without reference)
@@ -10,10 +11,10 @@
      wave  := u | w n (<expr> m <expr>?)*
      stmt  := sa <expr> <rhs wave> | va <expr> <rhs expr> | fo <expr> <rhs expr> | re <expr>
             | if n (<expr> <stmts>)* <stmts> | ca <expr> n <stmts>* | lo (f <drange> | w <expr> | n) <stmts>
-            | pc a b <expr> n (<mode> <expr>)* | as <expr> m <expr>? m <expr>? | rp <expr> m <expr>?
+            | pc a b <expr> n (<mode> m <formal expr>? <expr>)* | as <expr> m <expr>? m <expr>? | rp <expr> m <expr>?
             | nx m <expr>? | ex m <expr>? | rt m <expr>? | nu | wt n <expr>* m <expr>? m <expr>?
      stmts := n <stmt>*        sens := n | a | l n <expr>*        mode := i | o | b
-   Prints `model|old|spec|fam noout wf listed cat`:
+   Prints `model|old|f20|spec|fam resolved wf listed cat` (model = lint_model, old = before d3610d9, f20 = before 8599f6f):
      a diagnostic list is `M<a>-<b>:<id>@<a>-<b>,...` / `S<a>-<b>` items joined by ';' (PANIC for None);
      spec = spec_diags for a process with a list of names, `-` otherwise; the four flags are 0/1 (listed: `-`
      without names); cat = C | S | P. *)
@@ -90,7 +91,8 @@ let rec stmt () : stmt =
         | _ -> INone) in
     let b = stmts () in SLoop (it, b)
   | "pc" -> let sp = span () in let p = expr () in let n = int () in
-    let args = times n (fun () -> let m = mode () in let e = expr () in (m, e)) in SCall (sp, p, args)
+    let args = times n (fun () -> let m = mode () in let f = opt expr in let e = expr () in
+                                  { a_mode = m; a_formal = f; a_actual = e }) in SCall (sp, p, args)
   | "as" -> let c = expr () in let r = opt expr in let s = opt expr in SAssert (c, r, s)
   | "rp" -> let m = expr () in let s = opt expr in SReport (m, s)
   | "nx" -> SNext (opt expr)
@@ -108,6 +110,26 @@ let sens () : sens option =
   | "l" -> let n = int () in Some (SensNames (times n expr))
   | t -> failwith ("bad sens token " ^ t)
 
+let root_cache : (string * (BinNums.coq_N -> ent_kind)) option ref = ref None
+let root_of_string (f : string) =
+  match !root_cache with
+  | Some (k, r) when k = f -> r
+  | _ ->
+    toks := Array.of_list (Stdlib.List.filter (fun x -> x <> "") (split_on ' ' f));
+    pos := 0;
+    let slo = num () in let shi = num () in
+    let tab = ref [] in
+    while !pos < Array.length !toks do
+      (match next () with
+       | "o" -> let id = num () in let n = int () in let fs = times n num in let rb = int () = 1 in
+         tab := (id, KOverloaded (fs, rb)) :: !tab
+       | "p" -> let id = num () in let m = mode () in let s = int () = 1 in
+         tab := (id, KParam (m, s)) :: !tab
+       | t -> failwith ("bad root token " ^ t))
+    done;
+    let r = root_tab slo shi (Stdlib.List.rev !tab) in
+    root_cache := Some (f, r); r
+
 let sp_str (a, b) = Printf.sprintf "%d-%d" (int_of_n a) (int_of_n b)
 let diag_str = function
   | DMissing (at, sigs) ->
@@ -122,9 +144,7 @@ let () =
     match split_on '\t' ln with
     | [_id; _flags; _text; _oracle; rootf; ast] ->
       (try
-        let root = match ints_of_string rootf with
-          | [a; b; c; d] -> root_of (n_of_int a) (n_of_int b) (n_of_int c) (n_of_int d)
-          | _ -> failwith "bad root" in
+        let root = root_of_string rootf in
         toks := Array.of_list (Stdlib.List.filter (fun x -> x <> "") (split_on ' ' ast));
         pos := 0;
         let kw = span () in
@@ -138,7 +158,8 @@ let () =
         let listed = match names with Some ns -> b01 (listed_signals root ns) | None -> "-" in
         let cat = match get_likely_process_category root p with
           | None -> "P" | Some Combinational -> "C" | Some Sequential -> "S" in
-        Printf.printf "%s|%s|%s|%s %s %s %s %s\n" (show (lint_model root p)) (show (lint_model_old root p)) spec
-          (b01 (in_family root p)) (b01 (no_out_actuals root p)) (b01 (wf_pos root p)) listed cat
+        Printf.printf "%s|%s|%s|%s|%s %s %s %s %s\n" (show (lint_model root p)) (show (lint_model_old root p))
+          (show (lint_model_f20 root p)) spec
+          (b01 (in_family root p)) (b01 (calls_resolved root p)) (b01 (wf_pos root p)) listed cat
       with Failure m -> Printf.printf "BADCASE %s\n" m | Invalid_argument m -> Printf.printf "BADCASE %s\n" m)
     | _ -> print_endline "BADCASE fields")
